@@ -494,6 +494,10 @@ def _untag(t):
         return {a: _untag(b) for a, b in t["v"]}
     if k == "bytes":
         return bytes.fromhex(t["v"])
+    if k == "set":
+        return {_untag(x) for x in t["v"]}
+    if k == "frozenset":
+        return frozenset(_untag(x) for x in t["v"])
     if k == "settings":
         from dateparser.conf import settings as S
         return S.replace(**{a: _untag(b) for a, b in t["v"]}) if t["v"] else S
@@ -517,6 +521,25 @@ def call_validate(case):
             p = DateDataParser(languages=["en"], settings=arg)
             res["phase"] = "call"
             p.get_date_data(case["s"])
+    except BaseException as e:  # noqa
+        if isinstance(e, (KeyboardInterrupt, SystemExit)):
+            raise
+        res["exc"], res["mro"] = exc_name(e)
+        res["msg"] = str(e)[:200]
+    return res
+
+
+def call_args(case):
+    """C02, wrongly typed arguments.  case: {languages, locales, region, tpl, ugo, ds, fmts: tagged values} -> the exception
+    class, if any, and whether it came from the constructor or from the first call"""
+    from dateparser.date import DateDataParser
+    res = {"exc": "", "mro": [], "phase": "construct", "msg": ""}
+    try:
+        a = {k: _untag(case[k]) for k in ("languages", "locales", "region", "tpl", "ugo", "ds", "fmts")}
+        p = DateDataParser(languages=a["languages"], locales=a["locales"], region=a["region"], try_previous_locales=a["tpl"], use_given_order=a["ugo"])
+        res["phase"] = "call"
+        dd = p.get_date_data(a["ds"], a["fmts"])
+        res["period"] = dd["period"]
     except BaseException as e:  # noqa
         if isinstance(e, (KeyboardInterrupt, SystemExit)):
             raise
